@@ -4,7 +4,7 @@ PROP = dict(
     title="An accepted match always has a matching arm; reported gaps are real",
     lean_module="AbraProofs.Properties.C12",
     required_theorems=["C12_exhaustive_sound", "C12_witness_sound", "C12_nonexhaustive_real",
-                       "C12_fromAst_meaning", "C12_exhaustive_sound_dpat", "C12_witness_sound_dpat"],
+                       "C12_fromAst_meaning", "C12_exhaustive_sound_dpat", "C12_witness_sound_dpat", "C12_terminates"],
     harness_bin="c12",
     mismatch_is_violation=True,
     rule="(scrutinee type, arm list) pairs over the bounded universe of harness/src/patuniv.rs (38 scrutinee types to "
@@ -30,14 +30,14 @@ PROP = dict(
         "float literal constructors are compared by parsed bit pattern (repaired behaviour of D15); a positional sub-pattern on a void payload is erased (repaired behaviour of D31)",
     ],
     design_ref="DESIGN.md §6 C12",
-    level_text="Theorems for every enum environment with inhabited types, every scrutinee type, every well-typed arm list and every fuel "
-               "for which the run finishes, about a function-by-function Lean model of pat_exhaustiveness.rs (from_ast_pat, Matrix::specialize, "
+    level_text="Theorems for every enum environment with inhabited types, every scrutinee type, every well-typed arm list (and every fuel "
+               "for which the run finishes; enough fuel always exists, C12_terminates), about a function-by-function Lean model of pat_exhaustiveness.rs (from_ast_pat, Matrix::specialize, "
                "or-expansion, unspecialize, ConstructorSet::split, WitnessMatrix, compute_exhaustiveness_and_usefulness): no witness => every "
                "well-typed value matches an arm (pmatch, the run-time meaning of source patterns); every witness covers a well-typed value that "
                "matches no arm. Proved by induction along the recursion with the specialisation, default-matrix and or-expansion lemmas. "
                "The model is tied to /repo on every run by checking generated match programs with the real checker and diffing the witness lists, "
                "and the property is checked directly by brute force over all values.",
-    level_note="Termination of the recursion (enough fuel always exists) is stated as OPEN in the property file and not proved: the theorems hold for every run that finishes; the driver's fuel bound was never exceeded. "
+    level_note="Termination is proved (C12_terminates: a measure that strictly decreases at every recursive call; the driver runs with that fuel), so the theorems are unconditional in the fuel. "
                "Int/float value spaces are unbounded in the model (see assumptions). The run-time half of the statement (the compiled match takes a matching arm) is C14's.",
     technique="Lean 4 theorems (Maranget-style induction over the matrix recursion) over a hand-written model + differential correspondence against the real checker + brute-force oracle",
     timeout=1500,
